@@ -7,7 +7,12 @@
 2. `values c14` runs the real code (TypedValue::secret_share / get_local_shares_for_each_party /
    secret_share_reveal, ReplicatedShares::secret_share_for_local_evaluation / secret_share_for_parties /
    reveal / from_tuple, mpc::utils::share_vector, get_evaluator_result) over all 11 scalar types x shapes x
-   nested types x boundary secrets x seeds and records shares, party tuples and revealed values as limb trees.
+   nested types x boundary secrets x seeds and records shares, party tuples and revealed values as limb trees;
+   a shape sweep (leaf types by byte length: every residue modulo 8 after 0, 1, 2, ... whole 64-bit words, bit arrays
+   byte-aligned and not, up to rank 7, long leaves inside containers; thorough: every bit length 1..300) and the
+   re-typing path of get_evaluator_result (a plain input declared with type dt offered for a (gt,gt,gt) graph input,
+   for all ordered pairs of the layout classes 1..320 bits and containers of them: the triple handed to the graph and
+   the revealed output must be the input re-read as a gt -- spec/Sharing.tla Reinterp / SameLayout).
 3. TLC on spec/SharingTrace.tla judges every record with multi-limb arithmetic (B2).
 """
 import json
@@ -16,11 +21,18 @@ from .c13 import judge, bad_records
 
 
 def _sig(rec, facets):
-    return {"record": "sharing", "type": json.dumps(rec["t"], sort_keys=True), "facets": facets}
+    return {"record": "retyped_plain_input" if rec.get("kind") == "ly" else "sharing", "type": json.dumps(rec["t"], sort_keys=True), "facets": facets}
 
 
 def _replay(rec, facets):
     first = rec["seeds"][0]
+    if rec.get("kind") == "ly":
+        bad = [rn for rn in first["runs"] if rn["api"] != "ger" or rn["reveal"] != rn["secret"] or rn["dt"] != rec["t"]]
+        return {"graph_input_type": ["t", [rec["t"]] * 3], "failing_facets": facets,
+                "first_runs_with_another_declared_type": [{k: rn[k] for k in ("api", "dt", "secret", "shares", "reveal")} for rn in bad[:3]],
+                "how": "graph: i = input(tuple(gt,gt,gt)); output i.  get_evaluator_result(context, [TypedValue::new(dt, secret)], "
+                       "reveal_output = false / true, SimpleEvaluator): the triple must sum (in the rings of gt) to the secret "
+                       "re-read as a gt (spec/Sharing.tla Reinterp)"}
     return {"type": rec["t"], "failing_facets": facets, "seeds": [s["seed"] for s in rec["seeds"]],
             "first_seed_runs": first["runs"][:3],
             "how": "PRNG::new(Some(seed)); TypedValue::new(type, secret).secret_share(&mut prng) / "
@@ -39,7 +51,8 @@ def run(chk):
     chk.note("small_models", "Z_2, Z_4, Z_8 scalars; arrays [2],[3]; vector; named tuple; nested tuple(scalar, array)"
              + ("; Z_8 array [2], Z_4 nested" if tier != "quick" else ""))
     nseeds = 6 if tier == "quick" else 64
-    lib.harness(["c14", chk.path("trace.ndjson"), chk.seed, nseeds], binary="values", timeout=3000)
+    lib.harness(["c14", chk.path("trace.ndjson"), chk.seed, nseeds] + (["full"] if tier != "quick" else []),
+                binary="values", timeout=3000)
     recs = lib.read_ndjson(chk.path("trace.ndjson"))
     apis = {}
     for r in recs:
@@ -47,13 +60,23 @@ def run(chk):
             for rn in s["runs"]:
                 apis[rn["api"]] = apis.get(rn["api"], 0) + 1
     chk.note("runs_by_api", apis)
-    chk.note("types", len(recs))
-    chk.note("seeds_per_type", nseeds)
+    chk.note("types", len([r for r in recs if r["kind"] == "sh"]))
+    chk.note("retyped_plain_input_records", len([r for r in recs if r["kind"] == "ly"]))
+    chk.note("retyped_plain_input_pairs", len({(json.dumps(rn["dt"], sort_keys=True), json.dumps(r["t"], sort_keys=True))
+                                               for r in recs for rn in r["seeds"][0]["runs"] if "dt" in rn and rn["dt"] != r["t"]}))
+    blens = sorted({r["bits"] for r in recs if r["t"]["k"] == "a" and r["t"]["st"] == "b"})
+    chk.note("bit_array_sizes", "%d sizes, %d..%d bits, %d not byte-aligned, %d beyond one 64-bit word and not word-aligned" % (
+        len(blens), blens[0], blens[-1], len([b for b in blens if b % 8]), len([b for b in blens if b > 64 and ((b + 7) // 8) % 8])))
+    chk.note("seeds_per_type", "%d (catalogue), %d (shape sweep)" % (nseeds, 2 if tier == "quick" else 3))
     sv_err = sorted({json.dumps(r["t"], sort_keys=True) for r in recs for s in r["seeds"] for rn in s["runs"] if rn["api"] == "sv-err"})
-    chk.note("share_vector_returned_Err_for", sv_err)
+    chk.note("share_vector_returned_Err_for", sv_err if len(sv_err) <= 6 else sv_err[:6] + ["... %d types in all" % len(sv_err)])
     res, bad = judge(chk, "SharingTrace", "MC_SharingTrace.cfg", recs, "trace.ndjson", _sig, _replay,
                      timeout=1500 if tier == "quick" else 7200)
     chk.traces += sum(apis.values()) - len(recs)
+    for r in [r for r in recs if r["kind"] == "ly" and r["t"]["k"] == "a" and r["t"]["st"] == "b" and r["bits"] == 32][:1]:
+        for rn in [rn for rn in r["seeds"][0]["runs"] if rn["dt"] == {"k": "s", "st": "i32"}][:1]:
+            chk.sample({"graph_type": r["t"], "declared_type": rn["dt"], "api": rn["api"], "secret": rn["secret"],
+                        "shares": rn["shares"], "reveal": rn["reveal"]})
     chk.note("records_rejected", len(bad))
     for r in recs[:40:9]:
         rn = r["seeds"][0]["runs"][1]
@@ -66,6 +89,9 @@ def run(chk):
         "yields the same r0, r1 and the same junk (the masks are drawn before the secret is used, typed_value.rs:844-853), "
         "shares are in-domain outputs of the generator whose quality is C15's subject",
         "junk_is_not_the_share is required only where a coincidence has probability < 2^-40 (or is impossible: party 0)",
+        "get_evaluator_result draws its masks from an unseeded generator: for it reconstruction (of the triple the graph "
+        "receives and of the revealed output) is judged, not the order of the draws; a declared type is only offered when "
+        "every leaf has exactly the bit size of the graph's leaf (the documented use)",
         "share_vector returns Err for bit arrays longer than 1 (it draws one byte per element); an Err is not a wrong "
         "sharing and is only counted",
         "the CLI ciphercore_split_parties is not executed (it uses an unseeded generator); its sharing logic is the "
